@@ -38,6 +38,9 @@ SITES = [
          param_types={"total": "Int", "max_elements": "Int"}, ret="Bool"),
     dict(_AUTO, name="autoIsZero", select=("iftest", "current_chunks[autodims[j]] == 0", 0), params=["cur"],
          params_map={"current_chunks[autodims[j]]": "cur"}, param_types={"cur": "Int"}, ret="Bool"),
+    # assert_chunks_match_shape: the test applied to every chunk size
+    dict(file=_F, func="assert_chunks_match_shape", gen="Chunks", modes=["rat"], name="chunkIsNegative", select=("elt", "cc < 0", 0),
+         params=["cc"], params_map={"cc": "cc"}, param_types={"cc": "Int"}, ret="Bool"),
     # max_elements given as "auto" (dask config bytes) or as a byte string, with the dtype's itemsize
     dict(_AUTO, name="autoMaxFromConfig", select=("assign", "max_elements", 0), params=["chunk_bytes", "itemsize"],
          params_map={"chunk_bytes": "chunk_bytes", "np.dtype(dtype).itemsize": "itemsize"}, ret="Int"),
